@@ -598,6 +598,25 @@ def _r4(ctx):
         "True if args.arch is None else False")]
     ctx.judge(ok, len(aw) == 1, "R4", "arch warning exactly when no --arch was given", f.where(aw[0].value) if aw else f.where(),
               "arch_warning is %s" % ([U(a.value) for a in aw]), f.qname, "arch warning definition")
+    # "no --arch was given" is read from args.arch: the options object must still say what the user typed when the flag is
+    # derived - no store into args.arch may reach the derivation, neither in this activation nor through a call of inspect
+    # itself with the edited object
+    argn = f.params()[0]
+    cfg_i = C.cfg_of(f)
+    stores = [n for n in ast.walk(f.node) if isinstance(n, (ast.Assign, ast.AugAssign)) and any(
+        isinstance(t_, ast.Attribute) and U(t_) == "%s.arch" % argn for t_ in (n.targets if isinstance(n, ast.Assign) else [n.target]))]
+    stores += [cfg_i.node_of(c_) for c_ in ast.walk(f.node) if isinstance(c_, ast.Call) and pm.call_name(c_) == "setattr" and len(c_.args) == 3
+               and U(c_.args[0]) == argn and isinstance(c_.args[1], ast.Constant) and c_.args[1].value == "arch"]
+    rec = [cfg_i.node_of(c_) for c_ in ast.walk(f.node) if isinstance(c_, ast.Call) and pm.call_name(c_) in ("inspect", "osaca.inspect")
+           and any(U(a_) == argn for a_ in list(c_.args) + [k_.value for k_ in c_.keywords])]
+    for st_ in stores:
+        targets_ = [a for a in aw if isinstance(a, ast.stmt)] + rec
+        hit = [t_ for t_ in targets_ if t_ is not st_ and cfg_i.reachable(st_, t_)]
+        ctx.check(not hit, "R4", "args.arch still is what the user typed where the arch warning is derived", f.where(st_),
+                  "`%s` edits the options object and %s: the run then believes --arch was given, and the no-micro-architecture warning "
+                  "(text) / ArchWarning (dict) is lost although a default model is used" % (
+                      U(st_)[:80], "inspect is called again with it" if hit and hit[0] in rec else "the warning flag is derived afterwards"),
+                  f.qname, "args.arch edited before the arch warning")
     lw = [a for a in flag_defs("length_warning") if isinstance(a, ast.stmt)]
     # The condition under which the flag ends up True, whatever the spelling (two-armed if, default False then override,
     # conditional expression, `if cond: flag = True`): for every definition the conjuncts (its guards + its value's test);
